@@ -195,7 +195,7 @@ def atoms_of(t, acc=None, depth=0):
 
 
 POINT_OPS = {'Add', 'Sub', 'Mul', 'Div', 'Rem', 'itof', 'floor', 'fabs', 'Shr', 'Shl', 'BitAnd', 'BitOr', 'BitXor', 'Neg',
-             'Eq', 'Ne', 'Lt', 'Le', 'Gt', 'Ge', 'sqrt', 'min', 'max', 'ftof32', 'trunc'}
+             'Eq', 'Ne', 'Lt', 'Le', 'Gt', 'Ge', 'sqrt', 'min', 'max', 'ftof32', 'trunc', 'And', 'Or', 'Not'}
 
 
 def point_eval(t, env, depth=0):
@@ -266,6 +266,12 @@ def point_eval(t, env, depth=0):
     if op == 'ftof32':
         import struct
         return struct.unpack('<f', struct.pack('<f', a[0]))[0]
+    if op == 'And':
+        return int(bool(a[0]) and bool(a[1]))
+    if op == 'Or':
+        return int(bool(a[0]) or bool(a[1]))
+    if op == 'Not':
+        return int(not a[0])
     if op in ('min', 'max'):
         return min(a) if op == 'min' else max(a)
     if op in ('Eq', 'Ne', 'Lt', 'Le', 'Gt', 'Ge'):
